@@ -191,7 +191,9 @@ impl C06 {
             }
         }
         // any missing path, malformed or unreadable data ⇒ error exit, never 0, never 19
-        if !d.missing.is_empty() || data.iter().any(|c| c == "M") {
+        // (a parameter file hit by an injected EIO / failing open is unreadable input too)
+        let params_hard = hard.iter().any(|h| h.starts_with("params/"));
+        if !d.missing.is_empty() || params_hard || data.iter().any(|c| c == "M") {
             return (nonzero_not19, desc);
         }
         let unreadable = rules.iter().any(|c| c == "U");
@@ -406,8 +408,23 @@ impl C06 {
                     argv.push("-d".into());
                     argv.push(d);
                 }
+                // a directory that holds nothing the command accepts (other extensions only)
+                // contributes no rules file, no document and no error
+                let mut extra = vec![];
+                if missing.is_empty() && r.chance(1, 6) {
+                    // a parameter file whose only key no rule reads: merged into every document
+                    extra.push(FileSpec { rel: "params/ok.json".into(), bytes: b"{\"zz_param_only\": {\"a\": 1}}".to_vec(), mtime_ns: 0 });
+                    argv.push("-i".into());
+                    argv.push("@/params/ok.json".into());
+                }
+                if r.chance(1, 6) {
+                    extra.push(FileSpec { rel: "nothing/notes.txt".into(), bytes: b"{ not: [json".to_vec(), mtime_ns: 0 });
+                    extra.push(FileSpec { rel: "nothing/sub/readme.md".into(), bytes: b"rule x {".to_vec(), mtime_ns: 0 });
+                    argv.push(if r.chance(1, 2) { "-d" } else { "-r" }.into());
+                    argv.push("@/nothing".into());
+                }
                 argv.extend(tail);
-                out.push(Dlv { kind: format!("args-{fmt}"), argv, stdin: None, dir_mode: "asc".into(), dir_seed: 1, faults, extra: vec![], missing, rules_idx: all_r.clone(), data_idx: all_d.clone() });
+                out.push(Dlv { kind: format!("args{}-{fmt}", if extra.is_empty() { "" } else { "+extras" }), argv, stdin: None, dir_mode: "asc".into(), dir_seed: 1, faults, extra, missing, rules_idx: all_r.clone(), data_idx: all_d.clone() });
             } else if choice < 7 {
                 let flag = *r.pick(&["", "-a", "-m"]);
                 // the same directories, or directories of symbolic links to their files (a
